@@ -205,11 +205,17 @@ class SSHLocalForwarder(SSHForwarder):
 
             return SSHForwarder(self)
 
+        # Until the channel is open there's nothing else which would
+        # close this connection when the SSH connection ends
+        self._conn.add_pending_forwarder(self)
+
         try:
             await self._coro(session_factory, *args)
         except ChannelOpenError as exc:
             self.connection_lost(exc)
             return
+        finally:
+            self._conn.remove_pending_forwarder(self)
 
         assert self._peer is not None
 
